@@ -168,7 +168,9 @@ fn main() {
     let profile = static_profile(&args.profile);
     let native = !args.miri;
     run::install_panic_hook();
-    if native && args.noise != "off" { noise::install(); }
+    // under Miri the hook only counts pool thread spawns/exits (no delays are injected there)
+    if args.noise != "off" || !native { noise::install(); }
+    run::set_monitor_thread();
     noise::exempt_this_thread(true);
     let opts = run::Opts { native, watchdog_s: args.watchdog_s, noise_family: args.noise.clone(), verbose: args.verbose };
     let t0 = Instant::now();
